@@ -180,8 +180,26 @@ func vxObserveBytes(label string, b []byte) {
 
 // vxQuiesce: natively there is no scheduler to ask; give the background
 // goroutines time to block.
-func vxQuiesce()           { time.Sleep(60 * time.Millisecond) }
+func vxQuiesce()           { time.Sleep(vxQuiesceDur()) }
 func vxYield()             { time.Sleep(time.Millisecond) }
+
+// vxQuiesceDur: how long "wait until the background goroutines are idle"
+// sleeps natively; the driver retries a disagreeing replay with a longer
+// value (VX_QUIESCE_MS) before it reports a mismatch.
+func vxQuiesceDur() time.Duration {
+	if v := os.Getenv("VX_QUIESCE_MS"); v != "" {
+		n := 0
+		for _, c := range v {
+			if c >= '0' && c <= '9' {
+				n = n*10 + int(c-'0')
+			}
+		}
+		if n > 0 {
+			return time.Duration(n) * time.Millisecond
+		}
+	}
+	return 60 * time.Millisecond
+}
 func vxReach(label string) {}
 func vxSymbolic() bool     { return false }
 func vxTier() int          { return vxState.rf.Tier }
